@@ -237,6 +237,14 @@ def check(run):
     engines.dangling_element_refs(run, [f for f in fx.repo_functions() if f.file.startswith(simlib.REPO_PREFIX)])
     import p01 as _p01
     _p01.accept_scratch_rule(run)
+    run.clause('an exception leaves the simulation safe to destroy: completions still queued when run() rethrows (and the sockets / user state they own) are disposed of while the io_contexts they refer to still exist - the catch-all of run() empties or replaces the internal handler queue')
+    rn_ = fx.fn1(S + '::run')
+    run.touch(rn_)
+    cat_ = [n_ for n_ in rn_.all_nodes() if n_['k'] == 'catch']
+    disposes = any(('m_service' in q.render(rn_, x_) and ((x_['k'] == 'call' and (q.callee_name(x_) or '').split('::')[-1] in ('reset', '~io_context', 'operator=', 'swap', 'emplace')) or (x_['k'] == 'new'))) for c_ in cat_ for x_ in walk(c_))
+    run.check(bool(cat_) and disposes, 'R15', 'exception-disposes-queued-completions', S + '::run: catch-all', rn_.loc(cat_[0]) if cat_ else rn_.loc(),
+              'when a handler throws, run() cancels timers and sockets and rethrows, but the completions that are still queued in the internal message queue (those it has just posted included) stay there until ~simulation() - which runs AFTER every io_context has been destroyed, as the API demands. A queued completion that owns a socket (the socket-returning async_accept, a handler holding a shared_ptr to its connection) then destroys that socket against a dead io_context: use-after-free',
+              'the queue is emptied before the exception is passed on')
     run.clause('a timer is on the simulation\'s queue exactly while it is marked pending, also after a wait on a cancelled timer (shared with C03)')
     import p03 as _p03
     _p03.async_wait_rules(run)
